@@ -447,6 +447,13 @@ func genStruct(r *rand.Rand, o TypeOpts, depth int) *T {
 			if !used[nm] {
 				f.JSON = nm
 			}
+		case 7:
+			if r.IntN(4) == 0 {
+				// a name of 64 bytes and more
+				if nm := fmt.Sprintf("long_name_%s", strings.Repeat("y", 56+r.IntN(20))); !used[nm] {
+					f.JSON = nm
+				}
+			}
 		case 6:
 			// a name that is an option keyword, or the Go identifier of another field of this struct
 			nm := pick(r, []string{"omitempty", "string", "omitzero"})
@@ -499,6 +506,9 @@ func genStruct(r *rand.Rand, o TypeOpts, depth int) *T {
 		if len(live) >= 2 {
 			a, b := r.IntN(len(live)), r.IntN(len(live))
 			if a != b {
+				if r.IntN(3) == 0 {
+					live[a].JSON = "dup_" + strings.Repeat("z", 60+r.IntN(30)) // the shared name is 64 bytes or longer
+				}
 				live[b].JSON = live[a].AvroName()
 			}
 		}
